@@ -67,24 +67,25 @@ def sk_consts(kind, ni, p1, p2, max_total, max_w, merge=True, dev=()):
 def mc_configs(tier):
     q = tier == "quick"
     cfg = {
-        "bloom": ("Sketches.tla", sk_consts("bloom", 3, 2 if q else 3, 2, 4, 2)),
-        "cms": ("Sketches.tla", sk_consts("cms", 3, 2, 2, 4 if q else 5, 2)),
-        "hll": ("Sketches.tla", sk_consts("hll", 2 if q else 3, 2, 2, 4 if q else 5, 2)),
-        "topk1": ("Sketches.tla", sk_consts("topk", 3, 1, 0, 5 if q else 7, 2)),
-        "topk2": ("Sketches.tla", sk_consts("topk", 3, 2, 0, 5 if q else 7, 2)),
-        "res1": ("Sketches.tla", sk_consts("res", 2, 1, 0, 4 if q else 5, 2)),
-        "res2": ("Sketches.tla", sk_consts("res", 3, 2, 0, 4 if q else 5, 2)),
+        "bloom": ("Sketches.tla", sk_consts("bloom", 3, 2 if q else 3, 2, 3 if q else 4, 2)),
+        "cms": ("Sketches.tla", sk_consts("cms", 3, 2, 2, 3 if q else 5, 2)),
+        "hll": ("Sketches.tla", sk_consts("hll", 3, 2, 2, 3 if q else 5, 2)),
+        "topk1": ("Sketches.tla", sk_consts("topk", 3, 1, 0, 8 if q else 10, 2)),
+        "topk2": ("Sketches.tla", sk_consts("topk", 3, 2, 0, 10 if q else 13, 2)),
+        "topk3": ("Sketches.tla", sk_consts("topk", 4, 3, 0, 9 if q else 11, 2)),
+        "res1": ("Sketches.tla", sk_consts("res", 2, 1, 0, 6 if q else 8, 2)),
+        "res2": ("Sketches.tla", sk_consts("res", 3, 2, 0, 6 if q else 7, 2)),
         "merkle": ("Merkle.tla", {"NK": 4, "NV": 2, "Dev": "{}"}),
     }
     if not q:
         cfg.update({
-            "bloom_k3": ("Sketches.tla", sk_consts("bloom", 2, 4, 3, 5, 2)),
+            "bloom_k3": ("Sketches.tla", sk_consts("bloom", 2, 4, 3, 4, 2)),
             "cms_d3": ("Sketches.tla", sk_consts("cms", 3, 2, 3, 4, 2)),
             "cms_w3": ("Sketches.tla", sk_consts("cms", 2, 3, 2, 6, 3)),
             "hll_r3": ("Sketches.tla", sk_consts("hll", 3, 2, 3, 4, 2)),
-            "topk3": ("Sketches.tla", sk_consts("topk", 4, 3, 0, 7, 2)),
-            "topk2_4items": ("Sketches.tla", sk_consts("topk", 4, 2, 0, 7, 3)),
-            "res3": ("Sketches.tla", sk_consts("res", 3, 3, 0, 6, 2)),
+            "topk2_4items": ("Sketches.tla", sk_consts("topk", 4, 2, 0, 11, 3)),
+            "topk4": ("Sketches.tla", sk_consts("topk", 5, 4, 0, 10, 2)),
+            "res3": ("Sketches.tla", sk_consts("res", 3, 3, 0, 7, 2)),
             "merkle5": ("Merkle.tla", {"NK": 5, "NV": 2, "Dev": "{}"}),
             "merkle4v3": ("Merkle.tla", {"NK": 4, "NV": 3, "Dev": "{}"}),
         })
@@ -104,6 +105,7 @@ DEVIATIONS = {
     "topk_error_not_inherited": ("topk2", "InvTopKBounded"),
     "topk_evict_resets_count": ("topk2", "InvTopKBounded"),
     "topk_evict_max": ("topk2", "InvTopKHeavy"),
+    "topk_evict_min_guaranteed": ("topk2", "InvTopKBounded"),
     "res_capacity_off_by_one": ("res2", "InvResHolds"),
     "res_replace_appends": ("res2", "InvResHolds"),
     "merkle_leaf_range_self": ("merkle", "InvMerkleCovers"),
@@ -122,7 +124,17 @@ def _tlc(label, module, constants, invariants, workers, view=None, timeout=1500,
                    env=SMALL_JVM if small else BIG_JVM)
 
 
-def model_check(chk, tier, pool):
+SIM_NUM, SIM_DEPTH = 20000, 24
+
+
+def _tlc_sim(label, consts, seed):
+    wd = tlc.workdir(label)
+    cfg = tlc.write_cfg(wd / "sim.cfg", constants=consts, invariants=SK_INVS + ["InvRef"])
+    return tlc.run(SPEC / "Sketches.tla", cfg, label=label, timeout=600, workers=4, simulate=f"num={SIM_NUM}",
+                   depth=SIM_DEPTH, seed=seed + 1, env=BIG_JVM)
+
+
+def model_check(chk, tier, pool, seed=0):
     """Submit all clean + sensitivity runs to the pool; returns a function that collects them."""
     cfgs = mc_configs(tier)
     w_clean = max(2, tlc.DEFAULT_WORKERS // 4)
@@ -140,10 +152,31 @@ def model_check(chk, tier, pool):
         jobs.append(("dev", dev, inv, pool.submit(_tlc, f"C20_mc/dev_{dev}", module, c, SK_INVS if sk else MK_INVS,
                                                   2, "View" if sk else None, 600, None, True)))
 
-    def collect():
+    if tier != "quick":
+        # deep random behaviours (TLC -simulate) beyond the exhaustive envelope
+        sims = {
+            "bloom": sk_consts("bloom", 3, 4, 2, 12, 3), "cms": sk_consts("cms", 3, 3, 2, 12, 3),
+            "hll": sk_consts("hll", 3, 3, 3, 12, 3), "topk2": sk_consts("topk", 5, 2, 0, 24, 3),
+            "topk3": sk_consts("topk", 5, 3, 0, 24, 2), "res": sk_consts("res", 3, 2, 0, 7, 2),
+        }
+        for name, consts in sims.items():
+            jobs.append(("sim", name, consts, pool.submit(_tlc_sim, f"C20_mc/sim_{name}", consts, seed)))
+
+    def collect(runner=None):
         for what, name, inv, fut in jobs:
             res = fut.result()
-            if what == "clean":
+            if what == "dev" and runner is not None and res.trace:
+                # DESIGN 2.3: a TLC counterexample is a candidate; run its history on the real code
+                case = cex_case(DEVIATIONS[name][0], res)
+                if case is not None:
+                    runner.run_case(case, f"cex:{name}")
+                    chk.replays += 1
+            if what == "sim":
+                chk.add_tlc(f"Sketches -simulate num={SIM_NUM} depth={SIM_DEPTH} {name} "
+                            + " ".join(f"{k}={v}" for k, v in inv.items() if k != "Dev"), res, count=False,
+                            note="random deep behaviours, all contract invariants")
+                chk.require(res.ok, f"Sketches.tla [simulate {name}] with Dev={{}} violates {res.violated}")
+            elif what == "clean":
                 module, consts = cfgs[name]
                 chk.add_tlc(f"{module[:-4]} Dev={{}} {name} " + " ".join(f"{k}={v}" for k, v in consts.items()
                                                                          if k != "Dev"), res)
@@ -165,15 +198,17 @@ def graph_configs(tier):
         "bloom": ("Sketches.tla", sk_consts("bloom", 2, 2, 2, 3, 2, dev=dev)),
         "cms": ("Sketches.tla", sk_consts("cms", 2, 2, 2, 3, 2, dev=dev)),
         "hll": ("Sketches.tla", sk_consts("hll", 2, 2, 2, 3, 2, dev=dev)),
-        "topk": ("Sketches.tla", sk_consts("topk", 3, 2, 0, 4 if q else 5, 2, dev=dev)),
-        "res": ("Sketches.tla", sk_consts("res", 2, 2, 0, 3 if q else 4, 2, dev=dev)),
+        "topk": ("Sketches.tla", sk_consts("topk", 3, 2, 0, 9 if q else 11, 1 if q else 2, dev=dev)),
+        "res": ("Sketches.tla", sk_consts("res", 3, 2, 0, 5 if q else 6, 2, dev=dev)),
         "mk": ("Merkle.tla", {"NK": 3, "NV": 2, "Dev": devset(dev)}),
     }
     if not q:
-        g["bloom3"] = ("Sketches.tla", sk_consts("bloom", 3, 2, 2, 3, 1, dev=dev))
-        g["cms3"] = ("Sketches.tla", sk_consts("cms", 3, 2, 2, 3, 1, dev=dev))
-        g["topk1"] = ("Sketches.tla", sk_consts("topk", 3, 1, 0, 5, 2, dev=dev))
-        g["res1"] = ("Sketches.tla", sk_consts("res", 3, 1, 0, 4, 2, dev=dev))
+        g["bloom3"] = ("Sketches.tla", sk_consts("bloom", 3, 2, 2, 2, 1, dev=dev))
+        g["cms3"] = ("Sketches.tla", sk_consts("cms", 3, 2, 2, 2, 1, dev=dev))
+        g["hll3"] = ("Sketches.tla", sk_consts("hll", 3, 2, 2, 2, 1, dev=dev))
+        g["topk1"] = ("Sketches.tla", sk_consts("topk", 3, 1, 0, 8, 2, dev=dev))
+        g["topk3"] = ("Sketches.tla", sk_consts("topk", 4, 3, 0, 8, 1, dev=dev))
+        g["res1"] = ("Sketches.tla", sk_consts("res", 3, 1, 0, 5, 2, dev=dev))
     return g
 
 
@@ -251,6 +286,23 @@ def mk_path_case(consts, path):
             "init": [[0] * nk, [0] * nk], "ops": ops}
 
 
+def cex_case(cfg_name, res):
+    """The history of a TLC error trace (found with one deviation switched on) as an executable case:
+    the same adds / merges / puts (TLC labels the trace states with the action and its parameters),
+    hash table of the trace's initial state injected."""
+    module, consts = mc_configs("quick")[cfg_name]
+    if len(res.trace) < 2 or any("_raw" in st for _a, st in res.trace):
+        return None
+    path = []
+    for act, _st in res.trace[1:]:
+        if "(" not in act:
+            return None
+        path.append((act, None))
+    if module == "Merkle.tla":
+        return mk_path_case(consts, path)
+    return path_case(consts["Kind"].strip('"'), consts, res.trace[0][1], path)
+
+
 def state_check(chk, kind, consts, graph, path, trace):
     """state-checked replay: projection of the real object after every action = graph node state."""
     matched = 0
@@ -277,14 +329,23 @@ def state_check(chk, kind, consts, graph, path, trace):
 # ---------------------------------------------------------------------------
 # trace validation
 
-def validate(traces, dev, label, pool, chunk=1500):
-    """Batch validation with SketchTrace.tla (Dev as given); chunks run concurrently, -workers 1."""
+def validate(traces, dev, label, pool, chunk_steps=8000):
+    """Batch validation with SketchTrace.tla (Dev as given); chunks of about `chunk_steps` recorded
+    steps run concurrently, each TLC with -workers 1."""
     wd = tlc.workdir(label)
     cfg = tlc.write_cfg(wd / "trace.cfg", spec="Spec", constants={"Dev": devset(dev)})
+    parts, cur, steps = [], [], 0
+    for t in traces:
+        cur.append(t)
+        steps += len(t.get("ops", ())) + 2
+        if steps >= chunk_steps:
+            parts.append(cur)
+            cur, steps = [], 0
+    if cur:
+        parts.append(cur)
     futs = []
-    for k in range(0, len(traces), chunk):
-        part = traces[k:k + chunk]
-        sub = f"{label}/part{k // chunk}"
+    for k, part in enumerate(parts):
+        sub = f"{label}/part{k}"
         f = tlc.workdir(sub) / "traces.json"
         f.write_text(json.dumps(part, separators=(",", ":")))
         futs.append((part, f, pool.submit(tlc.run, SPEC / "SketchTrace.tla", cfg, label=sub, workers=1,
@@ -390,7 +451,7 @@ def run(tier, seed, replay=None):
 
     # developer switch (mutation experiments): skip the model-checking runs, keep tours + drivers
     nomc = bool(os.environ.get("VERIF_C20_NOMC"))
-    collect_mc = (lambda: None) if nomc else model_check(chk, tier, pool)
+    collect_mc = (lambda runner=None: None) if nomc else model_check(chk, tier, pool, seed)
     if nomc:
         chk.assumptions.append("VERIF_C20_NOMC set: TLC model checking skipped in this run")
     graph_jobs = {name: pool.submit(_graph, name, module, consts)
@@ -398,7 +459,7 @@ def run(tier, seed, replay=None):
 
     # ---- code -> spec drivers (python side runs while TLC is busy) -----------------------------
     t0 = time.time()
-    n = 1 if quick else 12
+    n = 1 if quick else 8
     for kind in ("bloom", "cms", "hll"):
         for case in drv.split_cases(rng, kind, 10 * n, 10 if quick else 14):
             runner.run_case(case, "driver:split")
@@ -406,8 +467,10 @@ def run(tier, seed, replay=None):
             runner.run_case(case, "driver:stream")
         for case in drv.component_cases(rng, kind, 12 * n, 16):
             runner.run_case(case, "driver:component")
+    for case in drv.topk_churn_cases(rng, 400 * n, 36 if quick else 60):
+        runner.run_case(case, "driver:topk_churn")
     for kind in ("topk", "res"):
-        for case in drv.stream_cases(rng, kind, 120 * n, 30 if quick else 60):
+        for case in drv.stream_cases(rng, kind, (60 if kind == "topk" else 120) * n, 30 if quick else 60):
             runner.run_case(case, "driver:stream")
         for case in drv.component_cases(rng, kind, 20 * n, 20):
             runner.run_case(case, "driver:component")
@@ -423,7 +486,7 @@ def run(tier, seed, replay=None):
     # ---- spec -> code: tour every edge of the dumped graphs ---------------------------------------
     matched = total_steps = 0
     tour_complete = True
-    cap = 1000 if quick else None
+    cap = 600 if quick else 6000
     for name, fut in graph_jobs.items():
         res, g = fut.result()
         module, consts = graph_configs(tier)[name]
@@ -449,7 +512,9 @@ def run(tier, seed, replay=None):
     chk.extra["replay_steps_total"] = total_steps
     chk.exhaustive = tour_complete
 
-    collect_mc()
+    n_before = len(runner.traces)
+    collect_mc(runner)
+    chk.extra["traces_from_tlc_counterexamples"] = len(runner.traces) - n_before
 
     verdicts, results = validate(runner.traces, [], "C20_trace", pool)
     for r in results:
